@@ -8,6 +8,7 @@
 import Fir.Model.Resample
 import Fir.Model.ProtoResize
 import Fir.Model.ProtoCoeffs
+import Fir.Model.SimdU8x4
 namespace Fir
 
 /-- C02 tolerance between two back-ends: integers identical, f32 a few ulps of a re-associated f64 sum -/
@@ -50,6 +51,27 @@ def handleKernel (fs : List (String × String)) : String :=
         if ext == "none" then (firstDiff (canonComps p.kind model.data) (canonComps p.kind got)).map fun i => s!"component {i}: model={model.data[i]!} got={got[i]!}"
         else backendsAgree p.kind mabs model.data got
       let s := (backendsAgree p.kind mabs ref got).map fun e => s!"{ext} differs from the portable back-end at {e}"
+      -- U8x4 on SSE4.1, horizontal pass: the lane-accurate models of both kernels of the pass (registers, shuffle
+      -- masks taken from the source) are evaluated here and must give the very bytes the real kernels stored
+      let lane : Option String :=
+        if p.kind == .u8 ∧ p.n == 4 ∧ ext == "sse4" ∧ pass == "h" ∧ got.size == dw * dh * 4 then Id.run do
+          let q := normalize16 c
+          for y in [0:dh] do
+            let row : List Int := (List.range (sw * 4)).map fun i => src[(offset + y) * sw * 4 + i]!
+            for x in [0:dw] do
+              let (start, ks) := q.chunks.getD x (0, #[])
+              -- rows of complete four-row blocks: `horiz_convolution_four_rows`; leftover rows: `.._one_row`
+              let px := if y < dh - dh % 4 then SimdU8x4.pixelR q.precision row start ks.toList
+                        else SimdU8x4.pixel q.precision row start ks.toList
+              for ch in [0:4] do
+                if px.getD ch 0 ≠ got[(y * dw + x) * 4 + ch]! then
+                  return some s!"lane model of the SSE4.1 U8x4 kernels: pixel ({x},{y}) channel {ch}: model={px.getD ch 0} got={got[(y * dw + x) * 4 + ch]!}"
+          return none
+        else none
+      let m := match m, lane with
+        | some a, _ => some a
+        | none, some b => some b
+        | none, none => none
       match m, s with
       | none, none => "OK"
       | some m, none => "MODEL-DIFF " ++ m
